@@ -40,6 +40,7 @@ def main():
     import netgen
     from ethosu.vela import vela
     results = []
+    buffers = {}      # the caller's model buffers of the bytes entry point, one object per model for the whole history
     for i, st in enumerate(hist["steps"]):
         d = os.path.join(base, "step%d" % i)
         os.makedirs(d, exist_ok=True)
@@ -61,9 +62,17 @@ def main():
                     outp = vela.convert(mp)
                     blob = open(outp, "rb").read()
                     rc = 0
-                else:
-                    mv = vela.convert_bytes(bytearray(data))
+                elif st["entry"] == "convert_bytes_ro":      # a read-only view of the caller's buffer
+                    mv = vela.convert_bytes(memoryview(bytes(data)))
                     blob = bytes(mv)
+                    rc = 0
+                else:
+                    # the same caller-owned buffer object every time this model is compiled in this process
+                    cb = buffers.setdefault((st["family"], st["seed"]), bytearray(data))
+                    r["input_changed_before"] = bytes(cb) != data
+                    mv = vela.convert_bytes(cb)
+                    blob = bytes(mv)
+                    r["input_changed"] = bytes(cb) != data
                     rc = 0
             r["status"] = "ok" if rc == 0 else "vela_error"
             if blob is not None:
